@@ -78,11 +78,16 @@ def judgeDm (u l : List Match) (exceeded : Bool) : Bool :=
 def judgeDc (u l : List CapEv) (exceeded : Bool) : Bool :=
   exceeded || decide (u.map CapEv.key = l.map CapEv.key)
 
-/-- Clause (g) (max start depth; soundness only): every reported match is an unrestricted match
-whose root is at depth ≤ d, order preserved. -/
-def judgeG (u dms : List Match) (d : Nat) : Bool :=
+/-- Clause (g) (max start depth): exactly the unrestricted matches whose root is at depth ≤ d,
+in order (for queries with quantifiers / alternations: the same set of (pattern, root)). -/
+def judgeG (u dms : List Match) (d : Nat) (simple : Bool) : Bool :=
+  let exp := u.filter fun m => decide (m.depth ≤ d)
   dms.all (fun m => decide (m.depth ≤ d)) &&
-  ((dms.map Match.key).isSublist ((u.filter fun m => decide (m.depth ≤ d)).map Match.key))
+  (if simple then decide (dms.map Match.key = exp.map Match.key)
+   else
+    let er := exp.map fun m => (m.pat, m.root)
+    let gr := dms.map fun m => (m.pat, m.root)
+    gr.all (fun x => er.contains x) && er.all (fun x => gr.contains x))
 
 /-! ## (e) removal -/
 
